@@ -416,6 +416,9 @@ pub fn run_debug(cap: &mut Capture, c: &DbgCase) -> DbgObs {
         Outcome::Exit(code) => format!("exit {}", code),
         Outcome::Fuel => "fuel".to_string(),
         Outcome::Panic(m) => {
+            if std::env::var("LVH_DEBUG").is_ok() {
+                cap.say(&format!("panic in session: {}\n", m));
+            }
             return DbgObs {
                 line: "panic".to_string(),
                 program: { let _ = m; "panic".to_string() },
